@@ -147,6 +147,14 @@ Proof.
   - intros kr kn. exact (nested_alternation foldf unicode utf16 cs eqclass kr kn).
 Qed.
 
+(* lookaheads: (?=r) and (?!r) over a factor of the fragment are zero-width factors of the fragment again (the position is
+   kept when the body has / has no result; the captures are carried along unchanged), with one more unit of fuel on each
+   side; together with the closure under grouping the fragment is closed under (?:...), (?=...) and (?!...) to any depth *)
+Theorem c01_fragment_closed_under_lookahead : forall foldf unicode utf16 cs eqclass kr kn r n P neg sg eg,
+  gden foldf unicode utf16 cs eqclass r n P kr kn ->
+  gden foldf unicode utf16 cs eqclass (RLook true neg r) (NLookaround neg false sg eg n) (lookP neg P) (S kr) (S kn).
+Proof. exact lookahead_gden. Qed.
+
 (* the three kinds of atoms *)
 Theorem c01_atoms : forall foldf utf16 cs, wf_text cs ->
   (forall unicode eqclass ch icase n, char_node icase unicode ch = Ok n ->
